@@ -13,7 +13,7 @@ import (
 
 // retrydelay slice: the real retry executor's getDelay through the VerifDelaySequence hook (no waiting).
 //
-//	retrydelay cfg <delay> <maxDelay> <factorNum> <factorDen> <min> <max> <jitter> <jfNum> <jfDen> <maxDuration> <delayFn|-2>
+//	retrydelay cfg <delay> <maxDelay> <factorNum> <factorDen> <min> <max> <jitter> <jfNum> <jfDen> <maxDuration> <delayFn|-2> [<fnUntil>]
 //	retrydelay seq <n> <elapsedStep>  => d_0,…,d_{n-1}
 type retryDelaySlice struct {
 	rp retrypolicy.RetryPolicy[any]
@@ -48,8 +48,17 @@ func (s *retryDelaySlice) exec(t []string) string {
 		if mdur != 0 {
 			b.WithMaxDuration(time.Duration(mdur))
 		}
+		until := int64(0) // the delay function answers for the first `until` failures only and declines (-1) afterwards; 0: always
+		if len(t) > 12 {
+			until = atoi(t[12])
+		}
 		if dfn != -2 {
-			b.WithDelayFunc(func(failsafe.ExecutionAttempt[any]) time.Duration { return time.Duration(dfn) })
+			b.WithDelayFunc(func(e failsafe.ExecutionAttempt[any]) time.Duration {
+				if until > 0 && int64(e.Retries()) >= until {
+					return -1
+				}
+				return time.Duration(dfn)
+			})
 		}
 		s.rp = b.Build()
 		return ""
@@ -105,7 +114,19 @@ func genRetryDelay(r *rand.Rand, n int, tier string, emit func(string) string) {
 			mdur = base * int64(1+r.Intn(20))
 			step = pick(r, int64(0), mdur/7+1, mdur/3, mdur)
 		}
-		emit(fmt.Sprintf("retrydelay cfg %d %d %d %d %d %d %d %d %d %d %d", delay, maxDelay, fn, fd, mn, mx, jit, jn, jd, mdur, dfn))
+		until := int64(0)
+		if dfn != -2 && dfn != -1 && r.Intn(2) == 0 {
+			// a delay function that answers for the first failures only (a Retry-After on the first response), over a fixed
+			// delay or a backoff that has to take over with its own state afterwards
+			until = int64(1 + r.Intn(3))
+			if r.Intn(2) == 0 {
+				delay = pick(r, mags...)
+				maxDelay = delay * int64(1+r.Intn(200))
+				f := pick(r, [2]int64{2, 1}, [2]int64{3, 2}, [2]int64{5, 1})
+				fn, fd = f[0], f[1]
+			}
+		}
+		emit(fmt.Sprintf("retrydelay cfg %d %d %d %d %d %d %d %d %d %d %d %d", delay, maxDelay, fn, fd, mn, mx, jit, jn, jd, mdur, dfn, until))
 		emit(fmt.Sprintf("retrydelay seq %d %d", 1+r.Intn(24), step))
 	}
 }
